@@ -193,6 +193,7 @@ def parseOp (ck : CookieCfg) (input : Option (Option String)) (toks : List Strin
   | ["wait", d] => some (.wait (parseInt d))
   | ["stale", u, i] => some (.stale (unq u) (idSpec i))
   | "fault" :: _ => some .fault
+  | ["tz", _] => some .fault          -- the harness switches its local time zone; the model has none
   | ["crashinside", k] => some (.crashinside k.toNat!)
   | ["req", client, spec, ip, ua, create] =>
     let cs : CookieSpec :=
